@@ -12,7 +12,7 @@ import logging
 import numpy as np
 from hypothesis import strategies as st
 
-from vf.harness import Clause, Info, require
+from vf.harness import Skip, Clause, Info, require
 from vf import ref_cluster as rc
 
 from enspara.cluster import kcenters as kc_mod
@@ -655,6 +655,196 @@ def exhaustive_small(tier, shard, nshards):
 _S = cluster_case()
 _L = cluster_case(max_n=300, max_d=8, min_n=20)
 
+# --------------------------------------------------------------------------
+# stateful clause: the life of ONE clustering estimator object (RuleBasedStateMachine, JSON history)
+#
+# operations: construct, reconfigure (set_params / public attributes: metric, n_clusters), fit(data k), predict(data j).
+# Invariant after every step: the fitted attributes describe the LAST fit - centers are the frames of that data set at
+# center_indices_, labels_ / distances_ are nearest-center assignments under the metric the object had at that fit, the
+# number of centers is the one requested at that fit; predict() assigns to exactly those centers.
+
+from hypothesis.stateful import RuleBasedStateMachine, rule, initialize, precondition    # noqa: E402
+
+LIFE_KINDS = ["KCenters", "KHybrid", "KMedoids"]
+LIFE_METRICS = ["euclidean", "manhattan", "chebyshev"]
+
+
+def life_points(seed, n, d):
+    rng = np.random.RandomState(seed)
+    sites = set()
+    while len(sites) < n:
+        sites.add(tuple(int(v) for v in rng.randint(-30, 31, size=d)))        # 61^d sites: room for every n drawn
+    P = np.array(sorted(sites), dtype=np.float64)
+    rng.shuffle(P)
+    return P + rng.uniform(-0.2, 0.2, size=P.shape)
+
+
+class ClusterLife:
+    def __init__(self):
+        self.est = None
+        self.kind = None
+        self.cfg = None
+        self.fit_state = None          # (metric name, k, X)
+
+    def metric_obj(self, name):
+        return _resolved(rc.library_metric(name))
+
+    def check(self, where):
+        if self.est is None or self.fit_state is None:
+            return
+        name, k, X = self.fit_state
+        est = self.est
+        idx = [int(i) for i in np.asarray(est.center_indices_).ravel()]
+        ctr = [np.asarray(c, dtype=np.float64) for c in est.centers_]
+        require(len(idx) == len(ctr) == min(k, len(X)), "the number of centers is not the one requested at the last fit",
+                after=where, got=len(ctr), want=min(k, len(X)), kind=self.kind)
+        for j, i in enumerate(idx):
+            require(0 <= i < len(X) and np.array_equal(ctr[j], X[i]), "a center is not the frame at its center index "
+                    "(of the data of the last fit)", after=where, center=j, index=i, kind=self.kind)
+        D = rc.ref_dist_matrix(name, X, ctr)
+        lab = np.asarray(est.labels_, dtype=int)
+        dist = np.asarray(est.distances_, dtype=np.float64)
+        require(lab.shape == (len(X),) and dist.shape == (len(X),), "labels_/distances_ do not describe the data of the last fit",
+                after=where, labels=lab.shape, n=len(X))
+        own = D[np.arange(len(X)), lab]
+        require(bool(np.all(np.abs(dist - own) <= 1e-9 * np.maximum(1.0, own))), "a reported distance is not the distance to the "
+                "labelled center under the metric of the last fit", after=where, metric=name, kind=self.kind,
+                worst=float(np.max(np.abs(dist - own))))
+        require(bool(np.all(D.min(axis=1) >= own - 1e-9 * np.maximum(1.0, own))), "a frame is not labelled with its nearest "
+                "center", after=where, metric=name, kind=self.kind)
+
+    def step(self, op):
+        k_ = op["op"]
+        if k_ == "construct":
+            self.kind, self.cfg = op["kind"], {"metric": op["metric"], "k": op["k"]}
+            M = self.metric_obj(op["metric"])
+            if self.kind == "KCenters":
+                self.est = KCenters(M, n_clusters=op["k"])
+            elif self.kind == "KHybrid":
+                self.est = KHybrid(M, n_clusters=op["k"], kmedoids_updates=1, random_state=7)
+            else:
+                self.est = KMedoids(M, n_clusters=op["k"], n_iters=1)
+            self.fit_state = None
+        elif k_ == "reconfigure":
+            ch = {}
+            if "metric" in op:
+                ch["metric"] = self.metric_obj(op["metric"])
+                self.cfg["metric"] = op["metric"]
+            if "k" in op:
+                ch["n_clusters"] = op["k"]
+                self.cfg["k"] = op["k"]
+            if op["how"] == "set_params":
+                self.est.set_params(**ch)
+            else:
+                for a_, v in ch.items():
+                    setattr(self.est, a_, v)
+        elif k_ == "fit":
+            X = life_points(op["seed"], op["n"], op["d"])
+            kk = self.cfg["k"]
+            if self.kind == "KMedoids" and kk > rc.max_distinct_k(len(X)):
+                raise Skip("cold k-medoids start needs k distinct random frames")
+            with rc.pinned_global_rng(op["seed"]):
+                self.est.fit(X.copy())
+            self.fit_state = (self.cfg["metric"], kk, X)
+        elif k_ == "predict":
+            name, kk, X = self.fit_state
+            Y = life_points(op["seed"], op["n"], X.shape[1]) + op["shift"]
+            res = self.est.predict(Y.copy())
+            ctr = [np.asarray(c, dtype=np.float64) for c in self.est.result_.centers]
+            D = rc.ref_dist_matrix(self.cfg["metric"], Y, ctr)
+            lab = np.asarray(res.assignments, dtype=int)
+            dist = np.asarray(res.distances, dtype=np.float64)
+            own = D[np.arange(len(Y)), lab]
+            require(bool(np.all(np.abs(dist - own) <= 1e-9 * np.maximum(1.0, own))), "predict: reported distance is not the "
+                    "distance to the assigned center of the last fit (current metric)", kind=self.kind, metric=self.cfg["metric"])
+            require(bool(np.all(D.min(axis=1) >= own - 1e-9 * np.maximum(1.0, own))), "predict: a frame is not assigned to its "
+                    "nearest center of the last fit", kind=self.kind, metric=self.cfg["metric"])
+        else:
+            raise ValueError(k_)
+        self.check(k_)
+
+    @staticmethod
+    def replay(history):
+        c = ClusterLife()
+        for op in history:
+            c.step(op)
+        return c
+
+
+def cluster_life_info(history):
+    kinds = [h["op"] for h in history]
+    cl = ["life_op=" + k for k in sorted(set(kinds))] + ["life_kind=" + history[0].get("kind", "?"),
+                                                        "life_fits=%d" % min(kinds.count("fit"), 3)]
+    nt, seen_fit, pending = False, False, False
+    for k in kinds:
+        if k == "fit":
+            nt = nt or (seen_fit and pending)
+            seen_fit, pending = True, False
+        elif k in ("reconfigure", "predict"):
+            pending = pending or seen_fit
+    return Info(nt, cl)
+
+
+def run_cluster_life(case):
+    ClusterLife.replay(case["history"])
+    return cluster_life_info(case["history"])
+
+
+def make_cluster_life(hooks):
+    class ClusterLifeMachine(RuleBasedStateMachine):
+        def __init__(self):
+            super().__init__()
+            self.core = ClusterLife()
+            self.history = []
+            self.dead = False
+
+        def do(self, op):
+            if self.dead or hooks.over_budget():
+                self.dead = True
+                return
+            self.history.append(op)
+            try:
+                self.core.step(op)
+            except Skip:
+                self.history.pop()
+            except Exception as exc:
+                self.dead = True
+                if hooks.failed(list(self.history), exc):
+                    return
+                raise
+
+        @initialize(kind=st.sampled_from(LIFE_KINDS), metric=st.sampled_from(LIFE_METRICS), k=st.integers(1, 5))
+        def construct(self, kind, metric, k):
+            self.do({"op": "construct", "kind": kind, "metric": metric, "k": k})
+
+        @precondition(lambda self: not self.dead and self.core.est is not None)
+        @rule(data=st.data())
+        def reconfigure(self, data):
+            op = {"op": "reconfigure", "how": data.draw(st.sampled_from(["set_params", "setattr"]))}
+            what = data.draw(st.sampled_from(["metric", "k", "both"]))
+            if what in ("metric", "both"):
+                op["metric"] = data.draw(st.sampled_from(LIFE_METRICS))
+            if what in ("k", "both"):
+                op["k"] = data.draw(st.integers(1, 5))
+            self.do(op)
+
+        @precondition(lambda self: not self.dead and self.core.est is not None)
+        @rule(seed=st.integers(0, 10 ** 6), n=st.integers(3, 25), d=st.integers(1, 3))
+        def fit(self, seed, n, d):
+            self.do({"op": "fit", "seed": seed, "n": n, "d": d})
+
+        @precondition(lambda self: not self.dead and self.core.fit_state is not None)
+        @rule(seed=st.integers(0, 10 ** 6), n=st.integers(1, 12), shift=st.sampled_from([0.0, 0.5, 3.0]))
+        def predict(self, seed, n, shift):
+            self.do({"op": "predict", "seed": seed, "n": n, "shift": shift})
+
+        def teardown(self):
+            if not self.dead and self.history:
+                hooks.done(list(self.history), cluster_life_info(self.history))
+
+    return ClusterLifeMachine
+
+
 CLAUSES = [
     Clause("centers_are_frames", _S, make_run(oracle_centers_are_frames), quick=1400, thorough=26000,
            doc="every reported center is the data frame found at its reported center index"),
@@ -673,6 +863,9 @@ CLAUSES = [
     Clause("near_ties_and_tiny_scales", near_tie_case(), run_all, quick=600, thorough=9000,
            doc="all sentences on warm starts where a frame's two center distances differ by 1e-5..1e-7 relative (the later "
                "or the earlier center being the closer one) and on data with 1e-9..1e-12 coordinates"),
+    Clause("estimator_life", None, run_cluster_life, quick=160, thorough=3000, stateful=make_cluster_life, steps=10,
+           doc="stateful: construct / reconfigure / fit / predict histories of one KCenters / KHybrid / KMedoids object; the "
+               "fitted attributes always describe the last fit under the metric and cluster count it had then"),
     Clause("all_large", _L, run_all, quick=0, thorough=4000, doc="all sentences on 20..300 frames x 1..8 dims"),
     Clause("pam_small_exhaustive", _S, run_all, quick=0, thorough=0, exhaustive=exhaustive_small,
            doc="all sentences on every small 1-D integer configuration"),
